@@ -60,8 +60,28 @@ def impl(case):
     if h.total != sum(h.counts()):
         return "bad-total"
     out = _fmt((int(Fraction(o) * den), c) for o, c in h.items())
-    flag = _affine_flag(case, p, h)
+    flag = _affine_flag(case, p, h) or _twin_flag(case, p, h, which)
     return out + (" FLAG:" + flag if flag else "")
+
+
+def _twin_flag(case, p, h, which):
+    """the answer does not depend on what was computed before (C13 explores this systematically): after the same
+    query on a pool that is == / hash-equal but not identical (counts doubled), a fresh pool answers as before"""
+    from dyce import H, P
+
+    if len(p) == 0 or len(p) > 6:
+        return None
+    twin = P(*[H({o: 2 * c for o, c in hh.items()}) for hh in p])
+    try:
+        th = twin.h(*which)
+        again = PC.build_pool(case).h(*which)
+    except IndexError:
+        return None
+    if case["which"] and {o: c for o, c in th.items() if c} != {o: c * 2 ** len(p) for o, c in h.items() if c}:
+        return "scaled-twin-is-not-the-scaled-answer"  # doubling every count multiplies every roll's count by 2**n
+    if list(again.items()) != list(h.items()) or [type(o) for o in again] != [type(o) for o in h]:
+        return "answer-changes-after-the-same-query-on-a-scaled-twin"
+    return None
 
 
 def _affine_flag(case, p, h):
@@ -89,6 +109,8 @@ def _affine_flag(case, p, h):
 
 def model(case):
     p, enc, _ = _setup(case)
+    if not PC.ascending(p):
+        return None  # outside the theorems' hypothesis (DiceOK): the oracles decide
     return " ".join(["PH"] + PC.pool_tokens(p, enc) + gen.which_tokens(case["which"]))
 
 
@@ -221,6 +243,10 @@ def generate(rnd, tier, scale):
         dice = gen.rand_pool(rnd, max_dice=4, max_faces=4, kind=rnd.choice(["int", "int", "neg", "frac", "float", "bool"]))
         ncur = len([h for h in dice if any(c for _, c in h)])
         yield dict(dice=dice, which=gen.rand_which(rnd, ncur))
+    for _ in range(max(20, n // 40)):
+        dice = gen.rand_pool(rnd, max_dice=3, max_faces=4, kind=rnd.choice(["int", "neg"]))
+        ncur = len([h for h in dice if any(c for _, c in h)])
+        yield dict(dice=dice, which=gen.rand_which(rnd, ncur), mixed=True)
     for _ in range(int((25 if tier == "quick" else 300) * scale)):
         yield big_case(rnd, tier)
     if tier == "thorough":
